@@ -9,6 +9,8 @@ import (
 
 	dcp "github.com/Trendyol/go-dcp"
 	"github.com/Trendyol/go-dcp/config"
+	"github.com/Trendyol/go-dcp/stream"
+	"github.com/asaskevich/EventBus"
 	"github.com/couchbase/gocbcore/v10"
 
 	"verif/vrt"
@@ -140,6 +142,10 @@ func (e *DcpEnv) StoredSeq(vb uint16) (uint64, bool) {
 	}
 	return d.Checkpoint.SeqNo, true
 }
+
+func (e *DcpEnv) bus() EventBus.Bus { return dcp.VerifBus(e.D) }
+
+func dcpStream(e *DcpEnv) stream.Stream { return dcp.VerifStream(e.D) }
 
 func versionString(t [4]int) string {
 	return fmt.Sprintf("%d.%d.%d-%d-enterprise", t[0], t[1], t[2], t[3])
